@@ -11,6 +11,7 @@ import CBV.Lemmas.C18Data
 import CBV.Lemmas.C18Clear
 import CBV.Lemmas.C18Sides
 import CBV.Lemmas.C18Disk
+import CBV.Lemmas.C18Reject
 import CBV.Gen.TC18
 import CBV.Gen.TC19
 
@@ -859,6 +860,27 @@ example : [DiskCls.oneCore, .quarter, .half, .fourCore].all (fun cl =>
     (lookup cl.name CBV.Gen.c19QuadMaps).isSome && (sketchFromSource cl.name).isSome) = true := by decide +kernel
 
 end disk
+
+/-! ### round 6d: what holds for EVERY block and view (adjacent sides less than 60° apart included) -/
+
+/-- **Returns or raises `DegenerateGeometryError`, nothing else.**  For every point list, every list of simplices, every
+    observer and ceiling for which the view directions are defined: a run of `reorient` that does not return ends in
+    `notConvex` or `degenerate` — the two messages of `DegenerateGeometryError`; the `IndexError` of `common_2[0]`
+    (repair 70219c0) and of an empty `sorted(...)[-2:]` cannot occur (twelve triangles last exactly six passes).
+    Together with `T_C18_same_points` (a returned result is a permutation of the eight input points) this is what is
+    guaranteed without the hull contract's `across` clause, i.e. also for blocks whose adjacent sides are less than 60°
+    apart; that a returned result is then one of the 48 relabellings is NOT proved (there `Quadrangle` may accept a pair of
+    triangles from two sides) and stays with the oracle clause `block-restructured`. -/
+theorem T_C18_rejects_documented (pts : List V3) (sim : List (Nat × Nat × Nat)) (obs ceil : V3) (e : Err)
+    (hview : ¬ ((dirsOf (average pts) obs ceil).o = V3.zero ∨ (dirsOf (average pts) obs ceil).t = V3.zero))
+    (h : reorient pts sim obs ceil = .error e) : e = .notConvex ∨ e = .degenerate := by
+  rcases reorient_error h with h1 | h1 | ⟨_, h1⟩
+  · exact Or.inl h1
+  · exact Or.inr h1
+  · exact absurd h1 hview
+
+/-- non-vacuity: a hull with ten triangles is rejected with `notConvex`, the exact tie of round 6c with `degenerate` -/
+example : reorient cubePts (cubeHull.take 10) ⟨10, 1 / 2, 1 / 2⟩ ⟨1 / 2, 1 / 2, 10⟩ = .error .notConvex := by decide +kernel
 
 /-! ### round 6c: every returning run, without any assumption on the view -/
 
